@@ -46,6 +46,8 @@ def gen_cases(tier, seed):
         cases.append({"kind": "approach", "ids": "sorted", "seed": seed * 100357 + 7, "_cost": 40, "fam": "c2c3"})
         for i in range(2):
             cases.append({"kind": "approach", "ids": "shuffled", "seed": seed * 100357 + 50 + i, "_cost": 20, "fam": "c3", "variant": "short-cross"})
+        for i in range(3):
+            cases.append({"kind": "approach", "ids": "shuffled", "seed": seed * 100357 + 70 + i, "_cost": 40, "fam": "c2", "variant": "mild"})
     else:
         for i in range(34):
             cases.append({"kind": "approach", "ids": "shuffled", "seed": seed * 100357 + i, "_cost": 60, "fam": "c2c4" if i % 4 == 3 else "c2c3", "thorough": True})
@@ -53,6 +55,8 @@ def gen_cases(tier, seed):
             cases.append({"kind": "approach", "ids": "sorted", "seed": seed * 100357 + 100 + i, "_cost": 60, "fam": "c2c3", "thorough": True})
         for i in range(12):
             cases.append({"kind": "approach", "ids": "shuffled", "seed": seed * 100357 + 200 + i, "_cost": 30, "fam": "c3", "variant": "short-cross", "thorough": True})
+        for i in range(16):
+            cases.append({"kind": "approach", "ids": "shuffled", "seed": seed * 100357 + 300 + i, "_cost": 60, "fam": "c2", "variant": "mild", "thorough": True})
     return cases
 
 
@@ -231,6 +235,15 @@ def run_approach(case, res):
         classes = [(1,), (2,)] if fam == "c3" else rng.sample(pool, 2)
         N = rng.randint(700, 900)
         tkind, lam, frac, assort = "disassortative", 0.85, 0.08, -0.6
+    if case.get("variant") == "mild":
+        # a target only MODERATELY different from the start: the network starts at chance mixing, the target is mildly assortative
+        # (20..35% of the mass moved to the diagonal).  A rule whose acceptance ratios are off by a constant factor between
+        # self-paired and cross pairings still "approaches" a strongly assortative target, and drifts away from a mild one
+        pool1 = [(1,), (2,), (3,), (4,)]
+        classes = rng.sample(pool1, 2) if fam == "c2" else rng.sample(pool, 2)
+        N = rng.randint(500, 700)
+        N = rng.randint(900, 1200)
+        tkind, lam, frac, assort = "assortative", rng.choice([0.08, 0.12, 0.16]), 1.5, 0.0
     if case.get("variant") == "short-cross":
         # already 60 % cross-class edges, target 80 %: few swaps, corners still whole triangles' corners
         NA = rng.choice([480, 600])
@@ -264,7 +277,7 @@ def run_approach(case, res):
     base.update(before=round(before, 4), after=round(after, 4), accepted=mon.accepted, proposals=mon.props, stopped=mon.stopped)
     res.sample = base
     res.digest = digest([case["seed"], case["ids"], fam])
-    res.nontrivial = abs(before - after) > (0.1 if case.get("variant") not in ("short-disassortative", "short-cross") else 0.01)
+    res.nontrivial = abs(before - after) > (0.1 if case.get("variant") not in ("short-disassortative", "short-cross", "mild") else 0.01)
     if case["ids"] == "sorted":
         res.count("approach_sorted_ids_runs")
         if not (after < before):
